@@ -150,8 +150,30 @@ def norm_num(s):
     return s
 
 
-def renderings(v):
-    """texts a table value may have in the string/file (union of the print formats in use)"""
+def hp_values(texts, n):
+    """set of -high_precision values of every SELECTED_OUTPUT n block in the given input texts (None = unknown/default)"""
+    out = set()
+    for t in texts:
+        cur = None
+        for line in t.split("\n"):
+            w = line.strip().split()
+            if not w:
+                continue
+            if not line.startswith(" ") and not line.startswith("\t"):
+                cur = None
+                if w[0].upper() == "SELECTED_OUTPUT":
+                    cur = int(w[1]) if len(w) > 1 and w[1].lstrip("-").isdigit() else 1
+                    if cur == n:
+                        out.add(None)
+            elif cur == n and w[0].lower() in ("-high_precision", "-high", "-h"):
+                out.discard(None)
+                out.add(len(w) < 2 or w[1].lower().startswith("t"))
+    return out
+
+
+def renderings(v, hp=None):
+    """texts a table value may have in the string/file (union of the print formats in use); hp: True/False when every
+    definition of the block has that -high_precision value (USER_PUNCH strings are then %20.20s / %12.12s), else None"""
     if isinstance(v, bool):
         v = int(v)
     if isinstance(v, int):
@@ -163,7 +185,9 @@ def renderings(v):
         return out
     if isinstance(v, str):
         s = v
-        return {s.strip(), s[:12].strip(), s[:20].strip(), s}
+        # PUNCH never truncates a string: it is written with %12.12s (%20.20s with -high_precision) when it fits and
+        # with %s otherwise (PBasic cmdpunch), so the text cell is the whole string (padding stripped)
+        return {s.strip(), s}
     return set()
 
 
@@ -197,7 +221,7 @@ def datalike(c):
         return False
 
 
-def compare_text(text, T, what):
+def compare_text(text, T, what, hp=None):
     """text: selected-output string or file content; T: lib.Table"""
     if T.rows == 0:
         # no data row was punched: the text may hold heading lines only (never a numeric cell)
@@ -253,7 +277,7 @@ def compare_text(text, T, what):
             if isinstance(v, tuple):
                 raise Violation(what + "_cells", "row %d col %d: error-typed cell %r" % (r, k, v))
             cn = norm_num(c) if not isinstance(v, str) else c
-            if cn not in renderings(v):
+            if cn not in renderings(v, hp):
                 raise Violation(what + "_cells", "row %d col %d (%s): text %r is not a rendering of table value %r" % (r, k, th[k], c, v))
         # positional order: the columns used by this line must be increasing (same order)
         order = []
@@ -354,6 +378,8 @@ def inspect(I, case, cfg, nums, redefined_now, sd, ctx):
                 raise Violation("set_current", "SetCurrentSelectedOutputUserNumber(%d) failed" % n)
             T = I.table()
             tables[n] = T
+            hv = hp_values([case["input"]] + [m["input"] for m in case.get("more", [])], n)
+            hp = next(iter(hv)) if len(hv) == 1 and None not in hv else None
             # (1) shape
             if T.rows > 0:
                 if not all(isinstance(h, str) for h in T.cells[0]):
@@ -381,7 +407,7 @@ def inspect(I, case, cfg, nums, redefined_now, sd, ctx):
             S = I.gets("GetSelectedOutputString")
             cnt = I.geti("GetSelectedOutputStringLineCount")
             if cfg["string_on"]:
-                compare_text(S, T, "string")
+                compare_text(S, T, "string", hp)
                 lines = S.split("\n")
                 if lines and lines[-1] == "":
                     lines = lines[:-1]
@@ -425,7 +451,7 @@ def inspect(I, case, cfg, nums, redefined_now, sd, ctx):
                         raise Violation("file_vs_string", "file of redefined user %d is not a suffix of its string" % n)
                     ctx.event("file_after_redefinition")
                 else:
-                    compare_text(F, T, "file")
+                    compare_text(F, T, "file", hp)
                     if cfg["string_on"] and F != S:
                         raise Violation("file_vs_string", "file and string of user %d differ" % n)
             else:
